@@ -35,6 +35,8 @@ type Contract struct {
 	Invs     []*Clause
 	Decs     []*Clause // loop decreases
 	Decrease *Clause   // function-level (recursion)
+	CallInvs []*Clause // invariants checked after every call (callinv)
+	Panics   []*Clause // conditions checked on the exit taken when a callback panics
 	Uses     []string  // spec modules whose axioms are included
 	Lets     [][2]string
 	Ghost    []string
@@ -53,6 +55,14 @@ type Macro struct {
 }
 
 var parsedMacros []*Macro
+
+// parsedGhosts: ghost variables (name -> SMT sort), declared at package level in
+// any contract file; they live in the state like heap components (key X:ghost.<name>)
+// and are havocked by calls about which nothing is known.
+var parsedGhosts = map[string]string{}
+
+// parsedGlobals: assumed facts about package-level variables, by package.
+var parsedGlobals = map[string][]string{}
 
 var tagRe = regexp.MustCompile(`^\[([^\]]*)\]\s*`)
 
@@ -74,7 +84,7 @@ func parseTags(rest string) ([]string, string, string) {
 
 var clauseKeywords = map[string]bool{"func": true, "extern": true, "mode": true, "requires": true, "ensures": true,
 	"modifies": true, "decreases": true, "loop": true, "uses": true, "pure": true, "trusted": true, "let": true,
-	"tags": true, "opt": true, "locals": true, "ghost": true, "define": true}
+	"tags": true, "opt": true, "locals": true, "ghost": true, "define": true, "callinv": true, "panics": true, "global": true}
 
 // parseContractFile reads the //@ lines of one file.
 func parseContractFile(path, pkg string) ([]*Contract, error) {
@@ -136,6 +146,28 @@ func parseContractFile(path, pkg string) ([]*Contract, error) {
 			last = nil
 			lastLet = nil
 			lastMacro = m
+			continue
+		}
+		if kw == "global" {
+			// global <expr>   (package level: a fact about package-level variables that are never
+			// reassigned, e.g. `global ErrEngineClosed != nil`; assumed at the entry of every function
+			// of the package and listed as an assumption)
+			parsedGlobals[pkg] = append(parsedGlobals[pkg], rest)
+			cur = nil
+			last = nil
+			lastLet = nil
+			lastMacro = nil
+			continue
+		}
+		if kw == "ghost" && cur == nil {
+			// ghost <name> <smt sort>   (package level: a ghost variable, written ghost.<name> in clauses)
+			if len(fields) < 3 {
+				return nil, fmt.Errorf("%s: bad ghost declaration", where)
+			}
+			parsedGhosts[fields[1]] = strings.TrimSpace(strings.TrimPrefix(rest, fields[1]))
+			last = nil
+			lastLet = nil
+			lastMacro = nil
 			continue
 		}
 		if kw == "func" || kw == "extern" {
@@ -207,6 +239,20 @@ func parseContractFile(path, pkg string) ([]*Contract, error) {
 			} else {
 				cur.Ensures = append(cur.Ensures, c)
 			}
+			last = c
+		case "panics":
+			// what must hold when a callback (a call through a function-typed parameter)
+			// panics and the function is left through its deferred calls
+			tags, label, text := parseTags(rest)
+			c := &Clause{Kind: kw, Tags: tags, Label: label, Text: text, Line: where}
+			cur.Panics = append(cur.Panics, c)
+			last = c
+		case "callinv":
+			// an invariant of the ghost state that must hold after every call the function makes
+			// (every point at which the function can be interrupted between two external effects)
+			tags, label, text := parseTags(rest)
+			c := &Clause{Kind: kw, Tags: tags, Label: label, Text: text, Line: where}
+			cur.CallInvs = append(cur.CallInvs, c)
 			last = c
 		case "decreases":
 			tags, label, text := parseTags(rest)
